@@ -300,7 +300,7 @@ func (n *Node) Head() string {
 		if n.Grouping != "" {
 			g = " " + n.Grouping
 		}
-		return "aggregation of " + short(n.Child) + ":" + n.Op + g
+		return "aggregation " + n.Op + " of " + short(n.Child) + g
 	case "bin":
 		op := n.Op
 		if n.Bool {
